@@ -44,16 +44,44 @@ var (
 	pkis  = map[uint64]*pki{}
 )
 
+// memoSeed designates a FIXED PKI (not a random one): the counter-example to completeness of the
+// memoised builder (Lean: memo_lost_chain / memo_verify_expired in ZV/Props/C07.lean).
+//   0 R  self-signed root          1 B  CA issued by R
+//   2 A1 CA issued by B, EXPIRED   3 A2 CA issued by B, same subject and key as A1, current
+//   4 L  leaf issued by A1/A2's name and key
+// With intermediates added in the order B, A1, A2 the builder caches B's result computed below
+// [L, A1] and re-uses it below [L, A2]: the valid current chain L-A2-B-R is never produced, the
+// expired chain L-A1-B-R is returned twice and Verify fails with Expired.
+const memoSeed = uint64(1)<<62 + 7
+
+func memoSpecs() []c08.CertSpec {
+	lo, hi := int64(baseT-2000), int64(baseT+5000)
+	mk := func(serial, subj, key, iss, signKey int, ca bool) c08.CertSpec {
+		return c08.CertSpec{Serial: serial, Subject: subj, Key: key, SKID: 10 + key, IssuerName: iss, AKID: 10 + signKey, SignKey: signKey,
+			BCValid: ca, IsCA: ca, MaxPathLen: -1, NotBefore: lo, NotAfter: hi}
+	}
+	sp := []c08.CertSpec{mk(0, 1, 1, 1, 1, true), mk(1, 2, 2, 1, 1, true), mk(2, 3, 3, 2, 2, true), mk(3, 3, 3, 2, 2, true), mk(4, 4, 4, 3, 3, false)}
+	sp[2].NotAfter = baseT - 1000
+	return sp
+}
+
 func genSpecs(seed uint64) []c08.CertSpec {
+	if seed == memoSeed {
+		return memoSpecs()
+	}
 	r := zv.NewRng(seed*0x9e3779b9 + 17)
 	n := 3 + r.Intn(5) // 3..7
 	specs := make([]c08.CertSpec, n)
+	twinOf := make([]int, n)
+	issuerOf := make([]int, n)
 	for i := range specs {
+		twinOf[i] = -1
 		s := &specs[i]
 		s.Serial = i
 		s.Subject, s.Key = i+1, i+1
 		if i > 0 && r.Chance(30) { // cross-signed twin: same subject and key as an earlier certificate
-			t := specs[r.Intn(i)]
+			twinOf[i] = r.Intn(i)
+			t := specs[twinOf[i]]
 			s.Subject, s.Key = t.Subject, t.Key
 		}
 		if r.Chance(10) {
@@ -81,6 +109,10 @@ func genSpecs(seed uint64) []c08.CertSpec {
 				j = r.Intn(n) // any certificate: cross-signs and loops arise
 			}
 		}
+		if twinOf[i] > 0 && r.Chance(50) { // twin CAs under the SAME issuer: the shape on which the builder's cache loses chains
+			j = issuerOf[twinOf[i]]
+		}
+		issuerOf[i] = j
 		s.IssuerName, s.SignKey = specs[j].Subject, specs[j].Key
 		switch k := r.Intn(100); {
 		case k < 15:
@@ -318,6 +350,76 @@ func checkChain(p *pki, idx map[*x509.Certificate]int, chain x509.CertificateCha
 	return ""
 }
 
+// ---- independent enumeration of ALL valid chains (Lean: ValidChain), for the completeness tags and a
+// second soundness oracle.  Candidate parents as findVerifiedParents selects them (Lean: findVerifiedParents_spec).
+
+func poolParents(pool []*x509.Certificate, c *x509.Certificate) []*x509.Certificate {
+	var cand []*x509.Certificate
+	if len(c.AuthorityKeyId) > 0 {
+		for _, p := range pool {
+			if bytes.Equal(p.SubjectKeyId, c.AuthorityKeyId) {
+				cand = append(cand, p)
+			}
+		}
+	}
+	if len(cand) == 0 {
+		for _, p := range pool {
+			if bytes.Equal(p.RawSubject, c.RawIssuer) {
+				cand = append(cand, p)
+			}
+		}
+	}
+	var out []*x509.Certificate
+	for _, p := range cand {
+		if c.CheckSignatureFrom(p) == nil {
+			out = append(out, p)
+		}
+	}
+	return out
+}
+
+func rawIn(l []*x509.Certificate, c *x509.Certificate) bool {
+	for _, x := range l {
+		if bytes.Equal(x.Raw, c.Raw) {
+			return true
+		}
+	}
+	return false
+}
+
+func allValidChains(leaf *x509.Certificate, roots, inters []*x509.Certificate) []x509.CertificateChain {
+	if rawIn(roots, leaf) {
+		return []x509.CertificateChain{{leaf}}
+	}
+	var out []x509.CertificateChain
+	var dfs func(cur x509.CertificateChain)
+	dfs = func(cur x509.CertificateChain) {
+		last := cur[len(cur)-1]
+		for _, r := range poolParents(roots, last) {
+			if r.ZVIsValid(x509.CertificateTypeRoot, cur) == nil && !rawIn(cur, r) {
+				out = append(out, append(append(x509.CertificateChain{}, cur...), r))
+			}
+		}
+		for _, x := range poolParents(inters, last) {
+			if rawIn(roots, x) {
+				continue
+			}
+			dup := false
+			for _, y := range cur {
+				if bytes.Equal(y.RawSubject, x.RawSubject) && bytes.Equal(y.RawSubjectPublicKeyInfo, x.RawSubjectPublicKeyInfo) {
+					dup = true
+				}
+			}
+			if dup || x.ZVIsValid(x509.CertificateTypeIntermediate, cur) != nil {
+				continue
+			}
+			dfs(append(append(x509.CertificateChain{}, cur...), x))
+		}
+	}
+	dfs(x509.CertificateChain{leaf})
+	return out
+}
+
 func window(chain x509.CertificateChain) (lo, hi time.Time) {
 	lo, hi = chain[0].NotBefore, chain[0].NotAfter
 	for _, c := range chain[1:] {
@@ -434,6 +536,89 @@ func execIsValid(f []string) zv.Out {
 	return zv.Out{Go: got, Viol: viol, Tags: []string{"isvalid-direct", "isvalid-" + got, fmt.Sprintf("isvalid-len-%d", n)}}
 }
 
+// ---- `c07 vsd <Verify line arguments>`: ValidateWithStupidDetail (x509/validation.go) ----
+
+func kindOfText(leaf *x509.Certificate, text string) string {
+	if text == "" {
+		return "ok"
+	}
+	for _, r := range []x509.InvalidReason{x509.NotAuthorizedToSign, x509.TooManyIntermediates, x509.IsSelfSigned, x509.IncompatibleUsage, x509.Expired, x509.NeverValid} {
+		e := x509.CertificateInvalidError{Cert: leaf, Reason: r}
+		if e.Error() == text {
+			return errKind(e)
+		}
+	}
+	if strings.HasPrefix(text, "x509: certificate signed by unknown authority") {
+		return "unknownAuthority"
+	}
+	return "other:" + text
+}
+
+func execVsd(p *pki, idx map[*x509.Certificate]int, leaf *x509.Certificate, rootCerts []*x509.Certificate, opts x509.VerifyOptions, kus []x509.ExtKeyUsage) zv.Out {
+	chains, val, err := leaf.ValidateWithStupidDetail(opts)
+	var ss []string
+	for _, ch := range chains {
+		var is []string
+		for _, c := range ch {
+			is = append(is, strconv.Itoa(idx[c]))
+		}
+		ss = append(ss, strings.Join(is, "."))
+	}
+	sort.Strings(ss)
+	b := func(x bool) int {
+		if x {
+			return 1
+		}
+		return 0
+	}
+	kind := errKind(err)
+	out := fmt.Sprintf("%s|chains=%s|trusted=%d|berr=%s|matches=%d|domain=%s", kind, strings.Join(ss, ","), b(val.BrowserTrusted),
+		kindOfText(leaf, val.BrowserError), b(val.MatchesDomain), zv.Hex([]byte(val.Domain)))
+	// T3: the property's sentence for the chains ValidateWithStupidDetail returns.  The requested key usages are
+	// discarded by the function (documented: "Don't pass a KeyUsage to the Verify API"), so the usage clause is
+	// checked for the ServerAuth default, not for opts.KeyUsages.
+	viol := ""
+	nowT := opts.CurrentTime
+	for _, ch := range chains {
+		if msg := checkChain(p, idx, ch, leaf, rootCerts, nil); msg != "" && viol == "" {
+			viol = "ValidateWithStupidDetail returned chain: " + msg
+		}
+		if lo, hi := window(ch); !(lo.Before(nowT) && hi.After(nowT)) && viol == "" {
+			viol = "ValidateWithStupidDetail returned a chain that is not current"
+		}
+	}
+	hostOK := opts.DNSName == "" || leaf.VerifyHostname(opts.DNSName) == nil
+	if err == nil && (len(chains) == 0 || !val.BrowserTrusted || !hostOK) && viol == "" {
+		viol = "ValidateWithStupidDetail: nil error without a current chain / BrowserTrusted / matching name"
+	}
+	if val.BrowserTrusted != (len(chains) > 0) && viol == "" {
+		viol = "BrowserTrusted differs from 'a current chain was returned'"
+	}
+	if opts.DNSName != "" && val.MatchesDomain != hostOK && viol == "" {
+		viol = "MatchesDomain differs from VerifyHostname"
+	}
+	tags := []string{"vsd", "vsd-err=" + kind, fmt.Sprintf("vsd-trusted=%d", b(val.BrowserTrusted)), fmt.Sprintf("vsd-matches=%d", b(val.MatchesDomain))}
+	if opts.DNSName == "" {
+		tags = append(tags, "vsd-no-domain")
+	}
+	if len(kus) > 0 && len(chains) > 0 {
+		anyReq := false
+		for _, u := range kus {
+			anyReq = anyReq || u == x509.ExtKeyUsageAny
+		}
+		for _, ch := range chains {
+			if !anyReq && !usageSpec(ch, kus) {
+				tags = append(tags, "vsd-chain-fails-requested-usage(usages-discarded)")
+				break
+			}
+		}
+	}
+	if err != nil && val.BrowserTrusted {
+		tags = append(tags, "vsd-trusted-but-name-mismatch")
+	}
+	return zv.Out{Go: out, Viol: viol, Tags: tags}
+}
+
 func exec(line string) zv.Out {
 	f := strings.Fields(line)
 	if f[1] == "eku" {
@@ -441,6 +626,11 @@ func exec(line string) zv.Out {
 	}
 	if f[1] == "isvalid" {
 		return execIsValid(f)
+	}
+	vsd := false
+	if f[1] == "vsd" {
+		vsd = true
+		f = append([]string{f[0]}, f[2:]...)
 	}
 	seed, _ := strconv.ParseUint(f[1], 10, 64)
 	p := getPKI(seed)
@@ -467,13 +657,18 @@ func exec(line string) zv.Out {
 		rootCerts = append(rootCerts, p.certs[i])
 	}
 	var inters *x509.CertPool // nil pool when no intermediates are given
+	var interCerts []*x509.Certificate
 	if len(interI) > 0 {
 		inters = x509.NewCertPool()
 		for _, i := range interI {
 			inters.AddCert(p.certs[i])
+			interCerts = append(interCerts, p.certs[i])
 		}
 	}
 	opts := x509.VerifyOptions{DNSName: dns, Intermediates: inters, Roots: roots, CurrentTime: time.Unix(now, 0), KeyUsages: kus}
+	if vsd {
+		return execVsd(p, idx, leaf, rootCerts, opts, kus)
+	}
 	current, expired, never, err := leaf.Verify(opts)
 
 	show := func(chains []x509.CertificateChain) string {
@@ -530,6 +725,65 @@ func exec(line string) zv.Out {
 		}
 	}
 	tags := []string{"err=" + kind, fmt.Sprintf("certs=%d", len(p.certs)), fmt.Sprintf("maxchain=%d", maxLen)}
+	// completeness is NOT part of the property (and false for the memoised builder): tags only.
+	// Soundness again, against the independent enumeration: every returned chain is one of the valid chains.
+	{
+		one := func(ch x509.CertificateChain) string { return show([]x509.CertificateChain{ch}) }
+		valid := map[string]bool{}
+		wanted := map[string]bool{}
+		anyReq := false
+		for _, u := range kus {
+			anyReq = anyReq || u == x509.ExtKeyUsageAny
+		}
+		eff := kus
+		if len(eff) == 0 {
+			eff = []x509.ExtKeyUsage{x509.ExtKeyUsageServerAuth}
+		}
+		for _, ch := range allValidChains(leaf, rootCerts, interCerts) {
+			valid[one(ch)] = true
+			if anyReq || usageSpec(ch, eff) {
+				wanted[one(ch)] = true
+			}
+		}
+		got := map[string]int{}
+		for _, class := range [][]x509.CertificateChain{current, expired, never} {
+			for _, ch := range class {
+				got[one(ch)]++
+				if !valid[one(ch)] {
+					fail("returned chain %s is not among the independently enumerated valid chains", one(ch))
+				}
+			}
+		}
+		dupl, lost := false, false
+		for _, n := range got {
+			dupl = dupl || n > 1
+		}
+		for k := range wanted {
+			lost = lost || got[k] == 0
+		}
+		if dupl {
+			tags = append(tags, "same-chain-returned-twice")
+		}
+		if lost {
+			tags = append(tags, "valid-chain-not-returned(memoisation)")
+			if len(current)+len(expired)+len(never) == 0 {
+				tags = append(tags, "error-although-valid-chain-exists")
+			}
+			wantCur := false
+			for _, ch := range allValidChains(leaf, rootCerts, interCerts) {
+				lo, hi := window(ch)
+				if wanted[one(ch)] && lo.Before(nowT) && hi.After(nowT) {
+					wantCur = true
+				}
+			}
+			if wantCur && len(current) == 0 {
+				tags = append(tags, "no-current-chain-although-valid-current-chain-exists")
+			}
+		}
+		if seed == memoSeed {
+			tags = append(tags, "memo-counter-example")
+		}
+	}
 	if len(current) > 0 {
 		tags = append(tags, "has-current")
 	}
@@ -626,6 +880,20 @@ func gen(g *zv.Gen) {
 			}
 			g.Emitf("c07 %d %s %d %s %s %d %s %s %d %s %s", seed, p.desc, leaf, idxList(roots), idxList(inters), now,
 				idxList(kus), zv.Hex([]byte(dns)), san, lds, zv.Hex([]byte(lc.Subject.CommonName)))
+			if q < 3 { // the same query through ValidateWithStupidDetail
+				g.Emitf("c07 vsd %d %s %d %s %s %d %s %s %d %s %s", seed, p.desc, leaf, idxList(roots), idxList(inters), now,
+					idxList(kus), zv.Hex([]byte(dns)), san, lds, zv.Hex([]byte(lc.Subject.CommonName)))
+			}
+		}
+	}
+	// the fixed counter-example to completeness of the memoised builder, in both insertion orders of the twins,
+	// through Verify and through ValidateWithStupidDetail
+	{
+		p := getPKI(memoSeed)
+		cn := zv.Hex([]byte(p.certs[4].Subject.CommonName))
+		for _, in := range []string{"1.2.3", "1.3.2", "2.3.1", "3.2.1"} {
+			g.Emitf("c07 %d %s 4 0 %s %d _ - 0 _ %s", memoSeed, p.desc, in, baseT+1, cn)
+			g.Emitf("c07 vsd %d %s 4 0 %s %d _ - 0 _ %s", memoSeed, p.desc, in, baseT+1, cn)
 		}
 	}
 	// checkChainForKeyUsage alone: every chain of <= 2 certificates over 13 EKU shapes x 18 request lists
@@ -662,5 +930,5 @@ func gen(g *zv.Gen) {
 
 func init() {
 	zv.Register(&zv.Prop{ID: "C07", Topic: "c07", Gen: gen, Exec: exec,
-		Rule: "random PKIs of 3-7 real Ed25519 certificates (layered: 70% issued by an earlier certificate, 15% by any certificate incl. later ones and itself (cross-signs, loops), 15% self-signed; 30% cross-signed twins sharing subject+key with an earlier certificate; shared key ids; random BasicConstraints/IsCA/MaxPathLen, KeyUsage, EKU sets incl. Any/SGC/unknown, validity windows incl. empty intersections, AKID present/absent/wrong, 10% bad signatures) x 8 queries each (leaf, root subset, intermediate subset and order, nil intermediates, verification time incl. exact NotBefore/NotAfter boundaries, requested key usages, DNS name). The abstract PKI (identities, flags, times, real-signature sigOK matrix) is sent to the model; compared: error kind and the multiset of chains per class. T3 = independent path checker applying the property's sentence to every returned chain, date-class check, nil-error check. Plus `c07 eku`: checkChainForKeyUsage alone (verif hook) on all chains of <= 2 certificates over 13 EKU shapes x 18 request lists (incl. empty list, sentinel -1, duplicates, SGC) and random chains of 3-6; model compared, T3 = the declarative rule UsageSpec re-implemented in the harness. Plus `c07 isvalid`: isValid alone (verif hook) for every certificate type x BasicConstraints/IsCA x 9 path-length limits x current chains of 0..14 certificates (the guard that bounds the recursion depth)."})
+		Rule: "random PKIs of 3-7 real Ed25519 certificates (layered: 70% issued by an earlier certificate, 15% by any certificate incl. later ones and itself (cross-signs, loops), 15% self-signed; 30% cross-signed twins sharing subject+key with an earlier certificate, half of them under the same issuer as their twin; shared key ids; random BasicConstraints/IsCA/MaxPathLen, KeyUsage, EKU sets incl. Any/SGC/unknown, validity windows incl. empty intersections, AKID present/absent/wrong, 10% bad signatures) x 8 queries each (leaf, root subset, intermediate subset and order, nil intermediates, verification time incl. exact NotBefore/NotAfter boundaries, requested key usages, DNS name). The abstract PKI (identities, flags, times, real-signature sigOK matrix) is sent to the model; compared: error kind and the multiset of chains per class. T3 = independent path checker applying the property's sentence to every returned chain, date-class check, nil-error check. Every returned chain is also looked up in an independent enumeration of all valid chains (second soundness oracle); chains of that enumeration that are NOT returned are tagged (completeness is not part of the property; false for the memoised builder: fixed counter-example PKI memoSeed, Lean memo_lost_chain). Plus `c07 vsd`: the same queries through ValidateWithStupidDetail (3 of 8 per PKI): compared chains, error kind, BrowserTrusted, kind of BrowserError, MatchesDomain, Domain; T3 = returned chains valid and current, nil error => chain + name match, BrowserTrusted <=> chain returned. Plus `c07 eku`: checkChainForKeyUsage alone (verif hook) on all chains of <= 2 certificates over 13 EKU shapes x 18 request lists (incl. empty list, sentinel -1, duplicates, SGC) and random chains of 3-6; model compared, T3 = the declarative rule UsageSpec re-implemented in the harness. Plus `c07 isvalid`: isValid alone (verif hook) for every certificate type x BasicConstraints/IsCA x 9 path-length limits x current chains of 0..14 certificates (the guard that bounds the recursion depth)."})
 }
